@@ -16,6 +16,21 @@ or resolved, and the errors flag must be set if a handler of the event itself ra
 Oracle (ghost state written by the generated handlers themselves: what they produced, in which order, when they finished):
 online at the moment a feedback event is *fired* (the generated components override the public fire() to see that moment)
 and per event at quiescence.  No liveness is claimed: a drain that does not reach quiescence in 300 ticks is a HarnessLimit.
+
+The empty handler set: in half of the runs (tape) the observer component has no catch-all handler but handlers for the NAMES of the
+feedback events only (`<name>_success/_failure/_complete/_done/_value_changed`, the notify names, `exception`; never `<name>`
+itself), so that an event type that drew no handler has an empty handler lookup.  Its dispatch cannot be seen; once the queue has
+been emptied its turn is over, "all its handlers have finished" holds vacuously, none raised, and `<name>_success` must have been
+fired exactly once iff requested (key C04/success/missing/no-handler).  With a catch-all observer the dispatch of every event is
+seen (isolation clause at full strength); the workload handlers mark the dispatch themselves in both modes.
+
+Rest with leftover tasks: quiescence is "queue empty and task table empty".  When the queue is empty, every generated handler that
+was started has run to its end (ghost log) and REST_TICKS = 3 further ticks made no handler run and no feedback event appear, the
+run is at rest by everything the public API shows although something still sits in the task table (e.g. an exhausted generator
+that is stepped again and again).  The statement says nothing about that table, so the run is not a HarnessLimit: it is judged
+as it stands - all safety clauses (value, errors flag, too many / unrequested / premature feedback events), but not the clauses
+that only say an event "is fired" without a deadline (exception/missing, failure/count too few, success/missing), which stay
+reserved for true quiescence.  On the unchanged tree this never happens (stat `rest-with-leftover-tasks` = 0).
 """
 from simcore import world
 from simcore.runner import HarnessLimit
@@ -30,16 +45,18 @@ LEVEL_TEXT = ('seeded exploration of generated programs (handler shapes x feedba
               'task order, tick/flush placement) x handler faults on the real Manager/Value; every event is judged against the production '
               'log its own handlers wrote; sampling, not proof - evidence states how many distinct programs/logs were explored')
 LEVEL_NOTE = ('trusted: the ghost log written by the generated handlers (what was produced/raised and when each handler finished), the '
-              'fire() override of the generated components as "moment of firing", the global observer handler, CPython generators')
+              'fire() override of the generated components as "moment of firing", the observer handler (catch-all or by feedback name), '
+              'an empty queue as "the turn of a handler-less event is over", CPython generators')
 RULE = ('each run = generated program (1-4 event types with success/failure/notify/success_channels flags, 0-4 handlers per type out of '
         '{return v, return None, raise, generator, generator raising at step j, return the Value of a nested fire}; v / yielded values scalars or flat, empty and nested '
-        'lists; nested fires, 1-3 components) + history of external '
+        'lists; nested fires, 1-3 components; observer = catch-all handler or handlers for the feedback names only, so that a type with 0 '
+        'handlers has an empty handler lookup) + history of external '
         'fires / tick() / flush() + handler/task order, all from one seeded tape; non-trivial = at least one handler raised, at least one '
         'generator handler was suspended over a tick, and at least one dispatched event requested success or failure feedback; '
         'distinct = distinct digest of the full fire/handler-step/feedback log')
 STATE_MEASURE = ('per dispatched event: (#plain handlers, #generator handlers, #plain raisers, #generator raisers, success, failure, '
                  'notify kind, #success_channels, min(#results,4), min(#list results,2), first result is a list, '
-                 '#results that are the Value of a nested fire (max 2))')
+                 '#results that are the Value of a nested fire (max 2), event has no handler at all)')
 REAL = ['circuits.core.manager.Manager (fire/_fire/flush/tick/_dispatcher/_eventDone/processTask/registerTask)',
         'circuits.core.values.Value', 'circuits.core.events.Event/exception', 'circuits.core.components.BaseComponent',
         'circuits.core.handlers.handler']
@@ -61,6 +78,12 @@ ASSUMPTIONS = [
     'nothing is demanded of `*_value_changed`/notify events (the statement is silent); they are generated and logged only',
     'handler-not-run / event-not-dispatched / canary are only demanded in runs where a handler did raise (isolation clause)',
     'all workload events travel on the single channel "*"; success_channels only redirect the success event (observers are global)',
+    'an event with an empty handler lookup (named-observer runs, type without handlers): "all handlers have finished" and "no handler '
+    'raised" hold vacuously once its turn in the queue is over, so `<name>_success` is demanded exactly once iff requested; its '
+    'dispatch is not observable, so event-not-dispatched is not demanded for it',
+    'a run that is at rest by every public observation (queue empty, all started handlers finished, 3 idle ticks) while the private '
+    'task table is not empty is judged as it stands instead of being a harness limit; the clauses without a deadline (a missing '
+    'exception / failure / success event) are then not judged (weaker reading: the statement promises no liveness)',
 ]
 PROBES = ['raise-plain', 'raise-generator', 'generator-suspended', 'plain-raise+generator', 'success-fired', 'failure-fired',
           'success-withheld', 'nested-fire', 'nested-fire-from-task', 'multi-inflight', 'falsy-result', 'list-value', 'scalar-value',
@@ -68,7 +91,8 @@ PROBES = ['raise-plain', 'raise-generator', 'generator-suspended', 'plain-raise+
           'list-result-returned', 'list-result-yielded', 'list-result-empty', 'list-result-nested', 'list-result-single',
           'list-result-first-of-several', 'list-result-after-other', 'list-result-after-error-triple',
           'nested-value-result', 'nested-value-result-single', 'nested-value-result+more', 'nested-value-result+raiser',
-          'nested-value-result-raised-below']
+          'nested-value-result-raised-below',
+          'named-observer', 'handlerless-event', 'handlerless-success-requested', 'handlerless-success-fired', 'handlerless-after-raise']
 TIERS = {
     'quick': dict(runs=70000, wall=35, chunk=250, cfg=dict(max_types=4, max_handlers=4, max_ops=8, max_events=14)),
     'thorough': dict(runs=2500000, wall=600, chunk=500, cfg=dict(max_types=6, max_handlers=5, max_ops=16, max_events=30)),
@@ -80,6 +104,7 @@ KEY_NEST_ERRORS = 'C04/errors-flag/not-set/nested-value-result'     # a handler 
 KEY_NEST_LOST = 'C04/value/results-lost/nested-value-result'        # ... and makes the next result replace everything held so far
 HPRIOS = [0, 0, 1, -1, 2]
 DRAIN_CAP = 300
+REST_TICKS = 3
 
 
 class Boom(Exception):
@@ -139,7 +164,7 @@ def run_one(ctx):
     avoid_defect = KEY_DEFECT in ctx.avoid
     avoid_list = KEY_LIST in ctx.avoid
     avoid_nest = KEY_NEST_ERRORS in ctx.avoid or KEY_NEST_LOST in ctx.avoid
-    st = dict(t=0, budget=cfg['max_events'], next_eid=0, faults=0, first_fault_t=None, inflight=0, susp=False, fb=False, harness=None)
+    st = dict(t=0, budget=cfg['max_events'], next_eid=0, faults=0, first_fault_t=None, inflight=0, susp=False, fb=False, harness=None, leftover=False)
     ev = {}          # eid -> record (ghost state of one fired workload event)
     order = []       # eids in fire order
 
@@ -155,6 +180,12 @@ def run_one(ctx):
     # ------------------------------------------------------------------ program generation
     ntypes = ch.randint(1, cfg['max_types'], 'ntypes')
     ncomp = ch.randint(1, 3, 'ncomp')
+    # observer: 0 = a catch-all handler (sees every dispatch, but then EVERY event has a handler), 1 = handlers for the names of the
+    # feedback events only: an event type that drew no handler then has no handler at all (empty handler lookup)
+    bare = bool(ch.draw(2, 'observer'))
+    if bare:
+        ctx.stat('named-observer')
+        ctx.trace('observer: handlers for the feedback event names only (an event type without a handler below has no handler at all)')
     vals = dict(n=0, falsy=[0, '', False, 0.0])
 
     def scalar(kind):
@@ -300,6 +331,12 @@ def run_one(ctx):
             if rec['open'] == 0:
                 st['inflight'] -= 1
 
+    def dispatched(rec):
+        if not rec['dispatched']:
+            rec['dispatched'] = True
+            ctx.log('D', rec['eid'])
+            ctx.trace('  dispatch e#%d %s' % (rec['eid'], rec['T']['name']))
+
     def nested(self, rec, S, step):
         for ti in S['fires'].get(step, ()):
             ctx.stat('nested-fire')
@@ -312,6 +349,7 @@ def run_one(ctx):
             rec = ev.get(getattr(event, 'sim_id', None))
             if rec is None:
                 return None
+            dispatched(rec)
             rec['started'][S['hid']] = rec['started'].get(S['hid'], 0) + 1
             ctx.log('H', rec['eid'], S['hid'], 0)
             ctx.trace('   h%d <- e#%d (%s)' % (S['hid'], rec['eid'], S['kind']))
@@ -348,6 +386,7 @@ def run_one(ctx):
             k = len(S['steps'])
             for step in range(k + 1):
                 if step == 0:
+                    dispatched(rec)
                     rec['started'][S['hid']] = rec['started'].get(S['hid'], 0) + 1
                     rec['open'] += 1
                     if rec['open'] == 1:
@@ -466,16 +505,17 @@ def run_one(ctx):
                 on_feedback(event)
             return BaseComponent.fireEvent(self, event, *channels, **kwargs)
 
+    # the observer's handler: for every event (catch-all), or - so that an event type without a generated handler really has an empty
+    # handler lookup - by NAME for the feedback events only (never for a workload event `<name>` itself)
+    fb_names = [T['name'] + sfx for T in types for sfx in ('_success', '_failure', '_complete', '_done', '_value_changed')]
+    fb_names += ['note%d' % T['i'] for T in types] + ['exception']
+
     class Obs(Base):
-        @handler(channel='*', priority=50)
+        @handler(*(fb_names if bare else ()), channel='*', priority=50)
         def _sim_obs(self, event, *args, **kwargs):
             eid = getattr(event, 'sim_id', None)
             if eid is not None:
-                rec = ev[eid]
-                if not rec['dispatched']:
-                    rec['dispatched'] = True
-                    ctx.log('D', eid)
-                    ctx.trace('  dispatch e#%d %s' % (eid, event.name))
+                dispatched(ev[eid])
                 return
             if not getattr(event, '_sim_seen', False):
                 event._sim_seen = True
@@ -522,10 +562,24 @@ def run_one(ctx):
                 raise RuntimeError(st['harness'])
 
     def drain():
-        n = 0
+        n = idle = 0
         while (len(root) or root._tasks) and not ctx.violations:
+            quiet = not len(root) and st['inflight'] == 0
+            t0 = st['t']
             step('tick')
             n += 1
+            # at rest by everything the public API shows: the queue is empty, every generated handler that was started has run to
+            # its end, and REST_TICKS further ticks in a row made no handler run and no feedback event appear.  What is left in the
+            # task table then is no handler of the workload; the statement is silent about it, so the run is judged as it stands
+            # (the clauses that only say "is fired" without a deadline are then left unjudged, see ASSUMPTIONS).
+            idle = idle + 1 if quiet and st['t'] == t0 and not len(root) and st['inflight'] == 0 else 0
+            if idle >= REST_TICKS:
+                st['leftover'] = True
+                ctx.stat('rest-with-leftover-tasks')
+                ctx.log('L')
+                ctx.trace('(at rest: queue empty, every started handler finished, %d idle ticks; %d entr%s left in the task table)' % (
+                    REST_TICKS, len(root._tasks), 'y' if len(root._tasks) == 1 else 'ies'))
+                return
             if n > DRAIN_CAP:
                 raise HarnessLimit('no quiescence after %d ticks' % DRAIN_CAP)
 
@@ -559,7 +613,19 @@ def run_one(ctx):
         lists = [n for n in must if exp[n][0][0] == 'V' and isinstance(exp[n][0][1], list)]
         ctx.state((len(hs) - ngen, ngen, sum(1 for S, _ in raised if S['kind'] != 'gen'), sum(1 for S, _ in raised if S['kind'] == 'gen'),
                    T['success'], T['failure'], T['notify'], T['schan'], min(len(exp), 4), min(len(lists), 2), bool(lists and lists[0] == must[0]),
-                   min(sum(1 for n in must if exp[n][0][0] == 'N'), 2)))
+                   min(sum(1 for n in must if exp[n][0][0] == 'N'), 2), bare and not hs))
+        handlerless = bare and not hs
+        if handlerless and not rec['dispatched']:
+            # an event nobody handles cannot be seen being dispatched; the queue has been emptied, so its turn is over (and with
+            # it "all handlers of the event have finished", none raised)
+            rec['dispatched'] = True
+            ctx.stat('handlerless-event')
+            if T['success']:
+                ctx.stat('handlerless-success-requested')
+                if rec['nsucc']:
+                    ctx.stat('handlerless-success-fired')
+            if st['first_fault_t'] is not None and rec['t_fire'] > st['first_fault_t']:
+                ctx.stat('handlerless-after-raise')
         if rec['dispatched'] and (T['success'] or T['failure']):
             st['fb'] = True
         if len(raised) > 1:
@@ -670,6 +736,9 @@ def run_one(ctx):
                      'e#%d: errors=%r but %d handler(s) raised' % (eid, v.errors, len(raised)))
                 break
         # --- "produces exactly one `exception` event plus one `<name>_failure` event if the event requested failure feedback"
+        #     (too many / not requested: checked online; too few is only judged at true quiescence: the statement sets no deadline)
+        if st['leftover']:
+            continue
         lost = [(S, x) for S, x in raised if not any(y is x for y in rec['exc'])]
         if lost:
             viol('C04/exception/missing/' + ('generator' if lost[0][0]['kind'] == 'gen' else 'plain'),
@@ -683,7 +752,7 @@ def run_one(ctx):
             break
         # --- "`<name>_success` is fired exactly once iff requested and no handler of the event raised" (too many: checked online)
         if T['success'] and not raised and rec['nsucc'] == 0:
-            viol('C04/success/missing/' + ('with-generator' if ngen else 'plain-only'),
+            viol('C04/success/missing/' + ('with-generator' if ngen else 'no-handler' if handlerless else 'plain-only'),
                  'e#%d requested success, all %d handler(s) finished without raising, but %s_success was never fired' % (eid, len(hs), T['name']))
             break
         if T['success'] and raised:
